@@ -721,6 +721,186 @@ def _foreign_family(ctx, pio, Interferogram, tmp, zc):
                     ctx.pred_fail(item, case, bad)
 
 
+# ------------------------------------------------------------------------------------------------
+# Code V files as other programs write them: the same grid re-declared with the header keywords in another order / case,
+# a physical wavelength (WVL w with SSZ scaled by w: the same nanometres per count), another no-data sentinel, leading
+# "!" comment lines, another line layout of the data block.  The map must come back as from the plain file.
+# ------------------------------------------------------------------------------------------------
+CV_ORDERS = [(0, 1, 2, 3, 4, 5), (5, 4, 3, 2, 1, 0), (2, 0, 4, 1, 5, 3), (1, 2, 3, 4, 5, 0), (4, 2, 0, 5, 3, 1)]
+CV_WVL = ['1.0', '0.6328', '0.5', '10.6', '2', '1e0']
+CV_NDA = [-32768, 32767, -9999, 12345, -32768, 0]
+CV_BANG = [[], ['! written by another program'], ['  ! indented comment', '!'], []]
+CV_LAYOUT = ['same', 'one-line', 'one-per-line', 'tabs']
+
+
+def cv_foreign_variant(i):
+    return {'order': i % len(CV_ORDERS), 'wvl': CV_WVL[i % len(CV_WVL)], 'nda': CV_NDA[(i // 2) % len(CV_NDA)], 'bang': (i // 3) % len(CV_BANG),
+            'layout': CV_LAYOUT[i % len(CV_LAYOUT)], 'case': ['upper', 'lower', 'mixed'][(i // 5) % 3]}
+
+
+def make_cv_foreign(text, fo):
+    d, ints, _nl, _ends = parse_cv(text)
+    old_nda = int(d['NDA'])
+    nda = fo['nda']
+    while nda in ints and nda != old_nda:       # the new sentinel must not collide with a valid sample
+        nda += 1 if nda < 32767 else -1
+    ints2 = [nda if v == old_nda else v for v in ints]
+    w = float(fo['wvl'])
+    ssz = repr(float(d['SSZ']) * w)
+    flags = d.get('flags', [])
+    typ = [t for t in flags if t != 'NNB']
+    groups = [['GRD', str(d['GRD'][0]), str(d['GRD'][1])], typ, ['WVL', fo['wvl']], [t for t in flags if t == 'NNB'], ['SSZ', ssz], ['NDA', str(nda)]]
+
+    def kw(t):
+        if not t.isalpha():
+            return t
+        return t.upper() if fo['case'] == 'upper' else t.lower() if fo['case'] == 'lower' else t.capitalize()
+    hdr = ' '.join(kw(t) for g in (groups[j] for j in CV_ORDERS[fo['order']]) for t in g)
+    lines = text.split('\n')
+    body = [ln for ln in lines[2:] if ln.strip()]
+    if fo['layout'] == 'one-line':
+        data = ' '.join(map(str, ints2)) + '\n'
+    elif fo['layout'] == 'one-per-line':
+        data = ''.join(f'{v}\n' for v in ints2)
+    elif fo['layout'] == 'tabs':
+        data = '\t'.join(map(str, ints2)) + ' \n'
+    else:
+        it = iter(ints2)
+        data = ''.join(' '.join(str(next(it)) for _ in ln.split()) + '\n' for ln in body)
+    return '\n'.join(CV_BANG[fo['bang']] + [d['title'], hdr]) + '\n' + data
+
+
+def judge_cv_foreign(full, out, meta, fo, title, prec32=False):
+    out = np.asarray(out, dtype=np.float64)
+    full = np.asarray(full, dtype=np.float64)
+    if tuple(out.shape) != tuple(full.shape):
+        return f'shape {tuple(full.shape)} came back as {tuple(out.shape)} with {fo}'
+    if not np.array_equal(np.isnan(out), np.isnan(full)):
+        return (f'invalid samples moved: {np.argwhere(np.isnan(full)).tolist()[:4]} in the plain file, '
+                f'{np.argwhere(np.isnan(out)).tolist()[:4]} with {fo}')
+    ok = ~np.isnan(full)
+    if ok.any():
+        err = np.abs(out[ok] - full[ok])
+        lim = (2.0 ** -21 if prec32 else 1e-12) * np.abs(full[ok])
+        if (err > lim).any():
+            i = int(np.argmax(err - lim))
+            return f'sample {np.argwhere(ok)[i].tolist()} reads {out[ok][i]!r}, the plain file of the same grid reads {full[ok][i]!r} ({fo})'
+    if meta.get('wavelength') != float(fo['wvl']):
+        return f'wavelength WVL {fo["wvl"]} came back as {meta.get("wavelength")!r}'
+    if meta.get('title') != title:
+        return f'title {title!r} came back as {meta.get("title")!r}'
+    return None
+
+
+def cv_foreign_pred(a, fo, tmp, cut=None, opt=None):
+    pio, _ = _impl()
+    f = os.path.join(tmp, 'cf.int')
+    with _quiet():
+        write_codev(pio, f, np.array(a, dtype=float), opt)
+        text = open(f).read()
+        full, _m = pio.read_codev_gridint(f)
+    text2 = make_cv_foreign(text, fo)
+    with open(f, 'w') as fh:
+        fh.write(text2)
+    if cut is None:
+        with _quiet() as w:
+            out, meta = pio.read_codev_gridint(f)
+            if any('truncat' in str(x.message) for x in w):
+                return 'complete re-declared file read with a truncation warning'
+        return judge_cv_foreign(full, out, meta, fo, parse_cv(text)[0]['title'])
+    if cut >= len(text2):
+        return None
+    with _quiet():
+        full2, _m = pio.read_codev_gridint(f)
+    return judge_cv_cut(full2, read_cv_cut(f, text2, cut), text2, cut)
+
+
+def _cv_foreign_family(ctx, pio, tmp, crec):
+    f2w = C.f2w
+    bases = [r for r in crec if 'text' in r and 'out' in r and 'parsed' in r and 2 <= r['c']['v'].size <= 40 and nontrivial(r['c'])
+             and r['c']['nan'] != 'all' and (r['c']['opt'].get('comment') is None)]
+    bases = sorted(bases, key=lambda r: (r['c']['nan'] == 'none',))[:ctx.scale(8, 40)]
+    per = ctx.scale(8, 30) * (2 if ctx.widen else 1)
+    n = int(ctx.rng.integers(0, 60))
+    recs, lines = [], []
+    for r in bases:
+        f = os.path.join(tmp, 'cfb.int')
+        for _ in range(per):
+            fo = cv_foreign_variant(n)
+            n += 1
+            prec32 = n % 7 == 0
+            text2 = make_cv_foreign(r['text'], fo)
+            with open(f, 'w') as fh:
+                fh.write(r['text'])
+            with _quiet():
+                full = read_codev(pio, f, {'prec32': prec32})[0]
+            with open(f, 'w') as fh:
+                fh.write(text2)
+            rec = {'r': r, 'fo': fo, 'prec32': prec32, 'full': full, 'text': text2}
+            try:
+                with _quiet() as w:
+                    rec['out'], rec['meta'] = read_codev(pio, f, {'prec32': prec32})
+                    rec['warned'] = any('truncat' in str(x.message) for x in w)
+            except Exception as ex:   # noqa
+                rec['rerr'] = f'{type(ex).__name__}: {ex}'
+            d, ints, _nl, ends = parse_cv(text2)
+            lines.append(f'cvr {1 if prec32 else 0} {d["GRD"][0]} {d["GRD"][1]} {f2w(float(d["WVL"]))} {f2w(float(d["SSZ"]))} '
+                         f'{int(d["NDA"])} {1 if ends else 0} ' + ' '.join(map(str, ints)))
+            recs.append(rec)
+    # every cut point of a few re-declared files
+    trunc = []
+    for rec in [x for x in recs if not x['prec32'] and 'out' in x and x['fo']['bang']][:ctx.scale(2, 6)]:
+        f = os.path.join(tmp, 'cft.int')
+        ks = _cuts(ctx, len(rec['text']))
+        trunc.append({'rec': rec, 'ks': ks, 'res': [read_cv_cut(f, rec['text'], k) for k in ks]})
+    rep = iter(C.lean_driver('C14', lines))
+    for rec in recs:
+        r, fo = rec['r'], rec['fo']
+        c = r['c']
+        m = next(rep)
+        case = descr(c, {'route': 'codev'})
+        case['opt'] = dict(c['opt'], cvforeign=fo)
+        item = 'codev.foreign'
+        ctx.case(item, {'shape': case['shape'], 'values': case['values'], 'foreign': fo, 'p32': rec['prec32'], 'opt': c['opt']}, nontrivial=True,
+                 tag=f'order{fo["order"]}/{fo["case"]}/wvl{fo["wvl"]}/nda{fo["nda"]}/bang{fo["bang"]}/{fo["layout"]}{"/p32" if rec["prec32"] else ""}/{c["nan"]}')
+        if 'rerr' in rec:
+            ctx.disagree(item, case, 'raised ' + rec['rerr'], m[:60])
+            ctx.pred_fail(item, case, 'reader raised on a complete re-declared file: ' + rec['rerr'])
+            continue
+        bad = judge_cv_foreign(rec['full'], rec['out'], rec['meta'], fo, r['parsed'][0]['title'], rec['prec32'])
+        if rec['warned']:
+            bad = bad or 'complete re-declared file read with a truncation warning'
+        if m == 'none' or m == 'bad-op':
+            ctx.disagree(item, case, f'array of shape {tuple(rec["out"].shape)}', m)
+        else:
+            t = m.split()
+            mvals = np.array([C.w2f(x) for x in t[3:]])
+            if tuple(rec['out'].shape) != (int(t[0]), int(t[1])):
+                ctx.disagree(item, case, f'shape {tuple(rec["out"].shape)}', f'shape {(int(t[0]), int(t[1]))}')
+            elif not same_bits(rec['out'], mvals):
+                if bad is None and close_values(rec['out'], mvals, 4 if not rec['prec32'] else 2 ** 30):
+                    ctx.notes.append(f'{item}: values differ from the model in the last bits only and the predicate holds: not a disagreement')
+                else:
+                    o64 = np.asarray(rec['out'], dtype=np.float64).ravel()
+                    bi = [i for i in range(o64.size) if not same_bits(o64[i:i + 1], mvals[i:i + 1])]
+                    ctx.disagree(item, case, f'{len(bi)} samples differ; first at flat index {bi[0]}: {o64[bi[0]]!r}', f'{mvals[bi[0]]!r}')
+            if (t[2] == '1') != rec['warned']:
+                ctx.disagree(item, case, f'warned={rec["warned"]}', f'warned={t[2] == "1"}')
+        if bad:
+            ctx.pred_fail(item, case, bad)
+    for t in trunc:
+        rec = t['rec']
+        c = rec['r']['c']
+        for k, res in zip(t['ks'], t['res']):
+            case = descr(c, {'route': 'codev', 'cut': k})
+            case['opt'] = dict(c['opt'], cvforeign=rec['fo'])
+            ctx.case('codev.foreign_truncation', {'shape': case['shape'], 'values': case['values'], 'cut': k, 'foreign': rec['fo']}, nontrivial=True,
+                     tag=f'bang{rec["fo"]["bang"]}/{rec["fo"]["layout"]}')
+            bad = judge_cv_cut(rec['out'], res, rec['text'], k)
+            if bad:
+                ctx.pred_fail('codev.foreign_truncation', case, bad)
+
+
 def _rewrite(f, raw):
     with open(f, 'wb') as fh:
         fh.write(raw)
@@ -1137,6 +1317,7 @@ def _correspondence(ctx, pio, Interferogram, tmp):
                 ctx.pred_fail('codev.truncation', case, bad)
 
     _foreign_family(ctx, pio, Interferogram, tmp, zc)
+    _cv_foreign_family(ctx, pio, tmp, crec)
 
     # large maps (dimensions and sizes the list-based model would take too long on): real code + predicates only
     for route in ('zygo', 'ifg', 'codev'):
@@ -1192,6 +1373,8 @@ def _apply_dtype(a, opt):
 def _run_pred(route, a, dx, wvl, tmp, opt=None):
     if opt and opt.get('foreign'):
         return foreign_pred(route, a, dx, wvl, opt['foreign'], tmp, prec32=bool(opt.get('prec32')))
+    if opt and opt.get('cvforeign'):
+        return cv_foreign_pred(_apply_dtype(a, opt), opt['cvforeign'], tmp, opt={k: v for k, v in opt.items() if k != 'cvforeign'})
     a = _apply_dtype(a, opt)
     if route in ('zygo', 'ifg'):
         return pred_zygo_roundtrip(route, tmp, a, dx, wvl, opt)
@@ -1204,6 +1387,8 @@ def _cut_pred(route, a, dx, wvl, k, tmp, opt=None):
     pio, _ = _impl()
     if opt and opt.get('foreign'):
         return foreign_pred(route, a, dx, wvl, opt['foreign'], tmp, cut=k)
+    if opt and opt.get('cvforeign'):
+        return cv_foreign_pred(a, opt['cvforeign'], tmp, cut=k, opt={k_: v for k_, v in opt.items() if k_ != 'cvforeign'})
     if route in ('zygo', 'ifg'):
         f = os.path.join(tmp, 's.dat')
         with _quiet():
@@ -1281,6 +1466,21 @@ def search(ctx, hints):
                         consider(route, a, 0.5, 0.6328, opt={'foreign': foreign_variant(i)})
                 if best is not None:
                     break
+        if best is None:
+            for (h, w) in ((1, 2), (2, 3)):
+                a = (np.arange(1, h * w + 1, dtype=float).reshape(h, w) - 2.5) * 123.0
+                if (h, w) == (2, 3):
+                    a[1, 0] = np.nan
+                for i in range(60):
+                    consider('codev', a, 0.5, 0.6328, opt={'cvforeign': cv_foreign_variant(i)})
+                if best is not None:
+                    break
+        if best is None:
+            a = (np.arange(1, 7, dtype=float).reshape(2, 3) - 2.5) * 123.0
+            for i in (4, 7):
+                for k in range(400):
+                    if consider('codev', a, 0.5, 0.6328, cut=k, opt={'cvforeign': cv_foreign_variant(i)}):
+                        break
         if best is None:
             a = (np.arange(1, 7, dtype=float).reshape(2, 3) - 2.5) * 123.0
             for i in (3, 10):
